@@ -310,8 +310,8 @@ def _sym_derivatives(B, f, arrays):
     return L, out
 
 
-def _num_derivatives(B, f, params, arrays, step=1e-5):
-    """central finite differences of f() with respect to every entry of the module parameters"""
+def _num_derivatives(B, f, params, arrays, step=2e-3):
+    """fourth-order central finite differences of f() with respect to every entry of the module parameters"""
     L = f()
     out = []
     torch = B.torch
@@ -319,15 +319,14 @@ def _num_derivatives(B, f, params, arrays, step=1e-5):
         flat = p.data.view(-1)
         for i in range(flat.numel()):
             old = flat[i].item()
-            with torch.no_grad():
-                flat[i] = old + step
-            fp = f()
-            with torch.no_grad():
-                flat[i] = old - step
-            fm = f()
+            vals = {}
+            for kk in (-2, -1, 1, 2):
+                with torch.no_grad():
+                    flat[i] = old + kk * step
+                vals[kk] = f()
             with torch.no_grad():
                 flat[i] = old
-            out.append((fp - fm) / (2 * step))
+            out.append((vals[-2] - 8 * vals[-1] + 8 * vals[1] - vals[2]) / (12 * step))
     return L, out
 
 
